@@ -3,6 +3,7 @@ import GoawkModel.C09
 import GoawkModel.C09Digits
 import GoawkModel.C09Spec
 import GoawkModel.C09Cache
+import GoawkModel.C09Chars
 /-!
 Line-protocol handler for property C09.
 
@@ -13,6 +14,9 @@ Line-protocol handler for property C09.
       → `ok <hex>` | `outside` (not a combination ISO C defines) | `none`
 * `numtostr <ofmt hex> <bits>` → like `sprintf`
 * `table` → the generated verb table as text
+* `charspec <str hex>` → `<k> <chars>`: k = the length (1-4) of the prefix that is a well-formed UTF-8 sequence by the declarative
+  table `wellFormedSeq`, 0 when there is none; chars = `charsOf` (hex, comma separated; `-` when empty)
+* `cfmtschars <flag chars hex> <width | -> <precision | -> <str hex>` → `ok <hex>`: `%s` stated on characters (`cFmtStrChars`)
 -/
 namespace GoawkModel.Drv.C09
 open GoawkModel GoawkModel.C09
@@ -82,6 +86,17 @@ def handle (args : List String) : String :=
     | some us => String.intercalate "|" ((runUses exactGen (chars == "1") [] us).map (fun r => (renderRes r).replace " " ":"))
     | none => "bad-request"
   | ["table"] => Generated.C09Verbs.verbTableText
+  | ["charspec", h] =>
+    match fromHex h with
+    | some b =>
+      let k := ([1, 2, 3, 4].find? (fun k => k ≤ b.length && wellFormedSeq (b.take k))).getD 0
+      let cs := charsOf b
+      toString k ++ " " ++ (if cs.isEmpty then "-" else String.intercalate "," (cs.map toHex))
+    | none => "bad-request"
+  | ["cfmtschars", flags, w, p, h] =>
+    match fromHex flags, optInt w, optInt p, fromHex h with
+    | some fc, some w, some p, some b => "ok " ++ toHex (cFmtStrChars (resolveSpec (goFlags fc) w p 115) b)
+    | _, _, _, _ => "bad-request"
   | _ => "bad-request"
 
 end GoawkModel.Drv.C09
